@@ -261,10 +261,10 @@ class Model:
             self._modfuncs[mod] = f
         return self._modfuncs[mod]
 
-    def record_fields(self, c):
+    def record_fields(self, c, known_value_class=False):
         """ordered (field, default AST or None) of a class that is pure data and NEW relative to the pinned tree: a @dataclass / typing.NamedTuple
         (fields = annotated class attributes), else None.  Classes of the pinned tree keep their tabled treatment."""
-        if c.qn in _baseline().get('classes', {}):
+        if c.qn in _baseline().get('classes', {}) and not known_value_class:
             return None
         decos = [ast.unparse(d.func if isinstance(d, ast.Call) else d) for d in c.node.decorator_list]
         is_dc = any(d.split('.')[-1] == 'dataclass' for d in decos)
@@ -629,6 +629,7 @@ class Model:
                     return [], 'ext:%s.%s' % (t[4:], f.attr), 0
             rts = self.expr_types(fn, f.value, env)
             targets, seen, repo_typed = [], set(), False
+            class_attr_hit = False
             declared_only = True
             for rt in sorted(rts):
                 cs = self.concrete(rt)
@@ -636,11 +637,23 @@ class Model:
                     repo_typed = True
                 for c in cs:
                     m = c.lookup(f.attr)
+                    if m is None:
+                        # NAME = functools.partialmethod(method, ...) / NAME = other_method in the class body
+                        for k in c.mro():
+                            pm = k.class_attrs.get(f.attr)
+                            if pm is not None:
+                                class_attr_hit = True
+                                tgt = pm.args[0] if isinstance(pm, ast.Call) and pm.args and ast.unparse(pm.func).split('.')[-1] in ('partialmethod', 'partial') else pm
+                                if isinstance(tgt, ast.Name):
+                                    m = c.lookup(tgt.id)
+                                break
                     if m and not m.is_abstract and m.qn not in seen:
                         seen.add(m.qn)
                         targets.append(m)
             if targets:
                 return targets, 'typed', (1 if len(targets) == 1 else 2)
+            if class_attr_hit:
+                return [], 'class-attr:' + f.attr, 0
             if repo_typed:
                 return [], 'unresolved-attr:%s on %s' % (f.attr, sorted(t for t in rts if self.concrete(t))), 0
             ext = sorted(t for t in rts if t.startswith(('ext:', 'builtin:')))
